@@ -10,7 +10,8 @@
  * every table walk).  The harness therefore sets table_size to TS (4) right after m_map_new() - the table, zeroed by
  * the allocator hook, is simply used as a TS-slot one, i.e. the map m_map_new would make with MAP_SIZE_DEFAULT = TS.
  * map.c is size-generic (power of two); the shipped size is exercised natively by /verif/repro/C05_*.c.
- * With TS = 4 a script of 4 puts also grows the table (4 -> 8) through the API. */
+ * Paths on which a put grows the table are outside this harness (cut; possible from operation TS/2 + 1 on, an
+ * earlier growth would be reported); growth is map_grow.c. */
 #ifndef TS
 #define TS 4
 #endif
@@ -34,7 +35,7 @@ int vf_main(void) {
     bool upd = nondet_bool();
     bool with_dtor = nondet_bool();
     g_with_dtor = with_dtor;
-    vf_tbl_budget = 2;                                     /* the initial table + one growth */
+    vf_tbl_budget = 1;                                     /* the initial table, no growth */
     /* flags as the user passes them: M_MAP_KEY_DUP alone must imply AUTOFREE */
     unsigned uf = (upd ? M_MAP_VAL_ALLOW_UPDATE : 0) | (keymode == 1 ? M_MAP_KEY_AUTOFREE : 0) | (keymode == 2 ? M_MAP_KEY_DUP : 0);
     if (keymode == 2 && nondet_bool()) uf |= M_MAP_KEY_AUTOFREE;
@@ -46,6 +47,10 @@ int vf_main(void) {
     VF_CHECK(m_map_len(m) == 0, "a new map is empty");
 
     for (int step = 0; step < L; step++) {
+        /* scripts stay at one table size: a put can only grow a table that already holds TS/2 entries (its probe
+         * window full), i.e. not before operation TS/2 + 1 - until then a growth would be REPORTED; from then on the
+         * growing paths are cut (bound of this harness; growth is map_grow.c's job) */
+        vf_tbl_silent = step >= TS / 2;
         VF_PICK(op, 3);
         VF_PICK(k, NK);
         int r;
@@ -53,7 +58,8 @@ int vf_main(void) {
             int v = (nondet_bool() && mo_present[k]) ? mo_val[k] : FRESH(step);
             const char *key; char *mine = NULL;
             if (keymode == 1) key = mine = vf_heap_key(k);
-            else { memcpy(putkey, keystr[k], KEYLEN); key = putkey; }
+            else if (keymode == 2) { memcpy(putkey, keystr[k], KEYLEN); key = putkey; }   /* scratch buffer, scribbled below */
+            else key = keystr[k];                          /* the caller keeps the key alive and unchanged */
             const bool was = mo_present[k];
             const int ka_before = ka_n;
             r = m_map_put(m, key, VAL(v));
